@@ -28,6 +28,8 @@ kept in the outcome census (`refused-by-<Exception>`).
 """
 from __future__ import annotations
 
+import re
+
 from sx.run import Unit
 from sx.core import sx_eq, s_and, s_or, s_not, s_implies, SBytes, SInt, SBool, SDict
 from kits import session as S
@@ -127,6 +129,46 @@ for _afi in list(_m_flow.decode):
         _m_flow.decode[_afi] = SDict(_m_flow.decode[_afi])
         _m_flow.factory[_afi] = SDict(_m_flow.factory[_afi])
 
+
+# The import hook of the symbolic worker imports EVERY module under exabgp.bgp, also those nothing in the product imports (today:
+# community/extended/bandwidth.py).  Their classes register themselves, so the worker's registries would hold entries the
+# product (and the clean replay interpreter) never has.  They are removed: the units are built from the PRODUCT's registries.
+
+
+def _plain_modules():
+    from sx import hook as _hook
+    if not getattr(_hook, '_INSTALLED', False):
+        return None
+    import os
+    import subprocess
+    import sys
+    code = ("import sys; from kits import session; import exabgp.bgp.message.update; "
+            "print(' '.join(m for m in sys.modules if m.startswith('exabgp.')))")
+    env = dict(os.environ)
+    env['exabgp_log_enable'] = 'false'
+    out = subprocess.run([sys.executable, '-c', code], env=env, capture_output=True, text=True, cwd=os.path.dirname(os.path.dirname(os.path.abspath(__file__))))
+    mods = set(out.stdout.split())
+    if len(mods) < 50:
+        raise RuntimeError('C15: cannot list the modules of a plain interpreter: %s' % out.stderr[-400:])
+    return mods
+
+
+PRUNED = []
+
+
+def _prune(registry, owner):
+    prod = _PLAIN
+    if prod is None:
+        return
+    for k in list(dict.keys(registry)):
+        v = dict.__getitem__(registry, k)
+        m = getattr(v, '__module__', None)
+        if isinstance(m, str) and m.startswith('exabgp.') and m not in prod:
+            dict.__delitem__(registry, k)
+            PRUNED.append('%s[%s] (%s)' % (owner, k, m))
+
+
+_PLAIN = _plain_modules()
 
 # ----------------------------------------------------------------------------- helpers
 
@@ -765,6 +807,12 @@ import exabgp.bgp.message.update.attribute.bgpls.linkstate as _m_ls   # noqa: E4
 
 _silence(_m_ls)
 
+for _reg, _owner in ((ExtendedCommunity.registered_extended, 'ExtendedCommunity'), (ExtendedCommunityIPv6.registered_extended, 'ExtendedCommunityIPv6'),
+                     (LinkState.registered_lsids, 'LinkState'), (PrefixSid.registered_srids, 'PrefixSid'), (SubTLV.registered_subtypes, 'SubTLV'),
+                     (TunnelTypeTLV.registered_tunnel_types, 'TunnelTypeTLV'), (PMSI._pmsi_known, 'PMSI'), (Attribute.registered_attributes, 'Attribute'),
+                     (NLRI.registered_nlri, 'NLRI'), (EVPN.registered_evpn, 'EVPN'), (MUP.registered_mup, 'MUP'), (MVPN.registered_mvpn, 'MVPN'), (BGPLS.registered_bgpls, 'BGPLS')):
+    _prune(_reg, _owner)
+
 REFUSAL = (Notify, ValueError, IndexError)   # what AttributeCollection.parse handles around Attribute.unpack
 
 
@@ -817,7 +865,14 @@ def repack_mp(ctx, obj, neg, code):
     return mk(ctx, []) if out is None else out
 
 
-def dec_attr(ctx, code, flag, shape, asn4=True, kind=None, deep=None):
+def cover(ctx, member, tag):
+    """reachability tag; units that sweep several registry entries also tag the entry, so that each one has its own vacuity guard"""
+    ctx.cover(tag)
+    if member:
+        ctx.cover('%s:%s' % (tag, member))
+
+
+def dec_attr(ctx, code, flag, shape, asn4=True, kind=None, deep=None, member=None):
     """The generic decode->encode obligation for one attribute value (same scheme as dec_nlri)."""
     kind = (kind or 'attr-%d' % code) + shape.tag
     neg = session(False, asn4)
@@ -828,26 +883,26 @@ def dec_attr(ctx, code, flag, shape, asn4=True, kind=None, deep=None):
             # MP_REACH / MP_UNREACH keep the wire octets and decode their routes when iterated: decoding IS iterating
             n_routes = len(list(obj))
     except REFUSAL as exc:
-        ctx.cover('refused')
+        cover(ctx, member, 'refused')
         ctx.note('class', 'refused' if isinstance(exc, Notify) else 'refused-by-%s' % type(exc).__name__)
         return ('refused', type(exc).__name__)
     except Exception as exc:
         # which exceptions may escape a decoder is property C03, not C15: here it is a refusal, kept in the census
-        ctx.cover('refused')
+        cover(ctx, member, 'refused')
         ctx.note('class', 'refused-by-%s' % type(exc).__name__)
         return ('raises', type(exc).__name__)
     if isinstance(obj, (TreatAsWithdraw, Discard)):
-        ctx.cover('refused')
+        cover(ctx, member, 'refused')
         ctx.note('class', 'refused:%s' % type(obj).__name__)
         return ('refused', type(obj).__name__)
     klass = type(obj).__name__
     if code in (14, 15) and n_routes == 0:
         # no route inside: for MP_UNREACH this is the End-of-RIB marker of the family (RFC 4724 2), which Update.parse
         # turns into an EOR message; there is nothing for pack to give back
-        ctx.cover('refused')
+        cover(ctx, member, 'refused')
         ctx.note('class', 'no-route-inside')
         return ('no-route-inside', klass)
-    ctx.cover('decoded')
+    cover(ctx, member, 'decoded')
     ctx.note('class', 'decoded:%s' % klass)
     try:
         out = repack_mp(ctx, obj, neg, code) if code in (14, 15) else B(ctx, obj.pack_attribute(neg))
@@ -858,7 +913,7 @@ def dec_attr(ctx, code, flag, shape, asn4=True, kind=None, deep=None):
     if len(out) == 0:
         # an OPTIONAL attribute with an empty value is not sent at all (Attribute._attribute): the empty value round trips to absence
         chk(ctx, 'empty-only-when-empty', len(data) == 0, 'C15:dec:%s:reencoded-to-nothing' % kind, lambda: {'in': data})
-        ctx.cover('canonical')
+        cover(ctx, member, 'canonical')
         render_witness(ctx, kind, lambda: Attribute.unpack(code, flag, bytes(data), neg))
         return ('decoded', klass, 'omitted-when-empty')
     parts = split_attributes(out)
@@ -871,17 +926,17 @@ def dec_attr(ctx, code, flag, shape, asn4=True, kind=None, deep=None):
         lambda: {'flag': oflag, 'code': ocode, 'attributes': len(parts), 'want-flag': want_flag})
     if shape.canon is None:
         verdict = 'normal-form-only'
-        ctx.cover('non-canonical')
+        cover(ctx, member, 'non-canonical')
     else:
         canon = s_and(*shape.canon)
         if not chk(ctx, 'reencode', s_implies(canon, sx_eq(value, data)), 'C15:dec:%s:reencode-differs' % kind, lambda: {'in': data, 'out': value}):
             return ('decoded', klass, 'reencode-differs')
         if bool(canon):
             verdict = 'canonical'
-            ctx.cover('canonical')
+            cover(ctx, member, 'canonical')
         else:
             verdict = 'non-canonical:' + shape.why
-            ctx.cover('non-canonical')
+            cover(ctx, member, 'non-canonical')
     if deep is not None:
         deep(ctx, obj, data, kind, neg)
     # what ExaBGP packed is its own encoding: it decodes to an equal attribute which packs to the same octets
@@ -1323,15 +1378,37 @@ def attr_plans(tier):
     return plans
 
 
+GROUPED = re.compile(r'^(29/tlv\d+|16/type\d+-sub\d+|25/type\d+-sub\d+|22/tunnel\d+|23/sr-policy/sub\d+)$')
+GROUP_SIZE = 12
+
+
 def attr_units(tier):
+    """one unit per plan, except the per-registry-entry plans (BGP-LS TLVs, extended-community subtypes, ...), which are swept
+    GROUP_SIZE entries per unit (a process start costs more than such a plan); every entry keeps its own must_cover tags"""
     th = tier == 'thorough'
     T = 1500 if th else 600
     us = []
-    for name, code, flag, builder, cover, opt in attr_plans(tier):
+    groups = {}
+    for name, code, flag, builder, cover_tags, opt in attr_plans(tier):
         asn4 = opt.get('asn4', True)
         kind = opt.get('kind')
+        if GROUPED.match(name) and opt.get('weight', 10) <= 30:
+            groups.setdefault((code, flag, asn4, name.split('/')[0] + '/' + re.sub(r'\d+.*$', '', name.split('/', 1)[1])), []).append((name, builder, cover_tags, kind))
+            continue
         us.append(Unit('dec/attr/' + name, lambda ctx, code=code, flag=flag, builder=builder, asn4=asn4, kind=kind: dec_attr(ctx, code, flag, builder(ctx), asn4, kind, DEEP.get(code)),
-                       must_cover=cover, weight=opt.get('weight', 10), max_seconds=T, max_paths=opt.get('max_paths', 20000), reset=reset_state, hash_const=True))
+                       must_cover=cover_tags, weight=opt.get('weight', 10), max_seconds=T, max_paths=opt.get('max_paths', 20000), reset=reset_state, hash_const=True))
+    for (code, flag, asn4, stem), members in groups.items():
+        for i in range(0, len(members), GROUP_SIZE):
+            chunk = members[i:i + GROUP_SIZE]
+            tags = [m[0].split('/', 1)[1] for m in chunk]
+
+            def fn(ctx, code=code, flag=flag, asn4=asn4, chunk=chunk, tags=tags):
+                k = ctx.choice('member', len(chunk))
+                name, builder, cover_tags, kind = chunk[k]
+                return dec_attr(ctx, code, flag, builder(ctx), asn4, kind, DEEP.get(code), member=tags[k])
+            must = tuple('%s:%s' % (c, t) for (n, b, cs, k), t in zip(chunk, tags) for c in cs)
+            us.append(Unit('dec/attr/%s[%s..%s]' % (stem, tags[0].replace(stem.split('/', 1)[1], ''), tags[-1].replace(stem.split('/', 1)[1], '')), fn, must_cover=must,
+                           weight=10 * len(chunk), max_seconds=T, max_paths=40000, reset=reset_state, hash_const=True))
     return us
 
 
